@@ -430,3 +430,20 @@ Proof. reflexivity. Qed.
 
 Example escape_ampersands_example : escape [c_amp] = [] ++ c_amp :: e_amp /\ entity_at e_amp = Some (c_amp, 4%nat).
 Proof. split; reflexivity. Qed.
+
+(* the executable form of render_parse that the harness evaluates on arbitrary Html.element trees *)
+Lemma list_eqb_refl : forall {A} (f : A -> A -> bool) l, Forall (fun x => f x x = true) l -> list_eqb f l l = true.
+Proof. induction 1 as [|x l Hx _ IH]; simpl; [reflexivity|]. now rewrite Hx, IH. Qed.
+Lemma hnode_eqb_refl : forall t, hnode_eqb t t = true.
+Proof.
+  induction t as [tag opts attrs kids IH|s|s|tag body] using hnode_ind'; cbn [hnode_eqb];
+    rewrite ?str_eqb_refl; try reflexivity.
+  rewrite (list_eqb_refl str_eqb opts) by (rewrite Forall_forall; intros; apply str_eqb_refl).
+  rewrite (list_eqb_refl _ attrs) by (rewrite Forall_forall; intros; now rewrite !str_eqb_refl).
+  cbn [andb]. induction IH as [|x l Hx _ IHl]; [reflexivity|]. now rewrite Hx, IHl.
+Qed.
+Theorem reads_back_true : forall t, names_ok t -> reads_back t = true.
+Proof.
+  intros t H. unfold reads_back. rewrite (render_parse t H).
+  apply list_eqb_refl. rewrite Forall_forall. intros; apply hnode_eqb_refl.
+Qed.
